@@ -21,12 +21,13 @@ LEVEL = 'exploration'
 TARGET = 'checks.c20:run'
 KINDS = ['I', 'QU', 'IQU', 'IQUV']
 OPS = ['add', 'sub', 'mul', 'truediv', 'pow']
-OPERANDS = ['int', 'float', 'jnp0d', 'jnparr', 'jnp1', 'same']
-TREES = ['arr', 'tuple', 'dict', 'nested', 'stokes', 'complex', 'mixed', 'empty_tuple']
+OPERANDS = ['int', 'float', 'jnp0d', 'jnparr', 'jnp1', 'same', 'complex', 'jnpbig']
+TREES = ['arr', 'tuple', 'dict', 'nested', 'stokes', 'complex', 'mixed', 'mixed_same_shape', 'empty_tuple']
 
 
 def plan(tier, seed):
     arith = [{'kind': k, 'op': o, 'refl': r, 'rhs': h, 'shape': s} for k in KINDS for o in OPS for r in (False, True) for h in OPERANDS for s in ([2], [2, 3])]
+    arith += [{'kind': k, 'op': o, 'refl': r, 'rhs': h, 'shape': [2], 'int': True} for k in ('QU', 'IQUV') for o in ('add', 'sub', 'mul', 'truediv') for r in (False, True) for h in ('float', 'jnp0d', 'int')]
     unary = [{'kind': k, 'unary': u, 'shape': s} for k in KINDS for u in ('neg', 'abs', 'pos', 'idx_int', 'idx_slice', 'idx_arr', 'idx_mask', 'ravel', 'reshape', 'matmul', 'bad_operands', 'props') for s in ([2], [2, 3])]
     fact = [{'kind': k, 'factory': f, 'shape': s, 'dt': d} for k in KINDS for f in ('zeros', 'ones', 'full', 'normal', 'uniform', 'structure_for', 'from_iquv')
             for s in ([], [2], [2, 3]) for d in ('float32', 'float16', 'int32')]
@@ -94,6 +95,8 @@ def run(phase, cases, ctx):
             if 'op' in case:
                 kind, shape = case['kind'], tuple(case['shape'])
                 d = comp_data(kind, shape)
+                if case.get('int'):   # integer-valued components: a float operand must promote the result, not be truncated
+                    d = {k_: (v * 4).astype(np.int32) for k_, v in d.items()}
                 x = mk(kind, d)
                 rhs_kind = case['rhs']
                 if rhs_kind == 'int':
@@ -104,6 +107,11 @@ def run(phase, cases, ctx):
                     r, rn = jnp.asarray(2.5, jnp.float32), {c.lower(): np.float32(2.5) for c in kind}
                 elif rhs_kind == 'jnparr':
                     arr = comp_data('I', shape, off=11)['i']
+                    r, rn = jnp.asarray(arr), {c.lower(): arr for c in kind}
+                elif rhs_kind == 'complex':
+                    r, rn = 1.5 - 2j, {c.lower(): 1.5 - 2j for c in kind}
+                elif rhs_kind == 'jnpbig':   # one more leading axis than the components: broadcasting enlarges the result
+                    arr = np.stack([comp_data('I', shape, off=11)['i'], comp_data('I', shape, off=17)['i']])
                     r, rn = jnp.asarray(arr), {c.lower(): arr for c in kind}
                 elif rhs_kind == 'jnp1':
                     arr = np.array([1.75], np.float32)
@@ -118,8 +126,12 @@ def run(phase, cases, ctx):
                     continue
                 for c in kind:
                     a, b = (rn[c.lower()], d[c.lower()]) if case['refl'] else (d[c.lower()], rn[c.lower()])
-                    want = f(np.asarray(a, np.float32) if not np.isscalar(a) else a, np.asarray(b, np.float32) if not np.isscalar(b) else b)
+                    cast = (lambda z: z) if case.get('int') else (lambda z: np.asarray(z, np.float32))
+                    want = f(cast(a) if not np.isscalar(a) else a, cast(b) if not np.isscalar(b) else b)
                     got = np.asarray(getattr(res, c.lower()))
+                    if np.iscomplexobj(want) != np.iscomplexobj(got) or (case.get('int') and np.asarray(want).dtype.kind != got.dtype.kind):
+                        bad(case, 'arith-dtype', f'component {c}: result dtype {got.dtype}, numpy gives {np.asarray(want).dtype}')
+                        break
                     if got.shape != np.shape(want) or not np.allclose(got, want, rtol=3e-6, atol=0):
                         bad(case, 'arith-value', f'component {c}: {got.ravel()[:4]} vs {np.asarray(want).ravel()[:4]}')
                         break
@@ -317,6 +329,7 @@ def run(phase, cases, ctx):
                     'nested': {'a': [jnp.asarray(a1), (jnp.asarray(a2),)], 'b': jnp.asarray(2.0, jnp.float32)},
                     'stokes': StokesQUPyTree(jnp.asarray(a1), jnp.asarray(-a1)), 'complex': (jnp.asarray(c1), jnp.asarray(a1)),
                     'mixed': {'h': jnp.asarray(a1, jnp.float16), 's': jnp.asarray(a2), 'i': jnp.asarray([1, 2], jnp.int32)}, 'empty_tuple': (),
+                    'mixed_same_shape': {'a': jnp.asarray([1, 2, 3], jnp.int32), 'b': jnp.asarray(a1), 'c': jnp.asarray(a1, jnp.float16), 'd': jnp.asarray([4, 5, 6], jnp.uint8)},
                 }
                 x = trees[t]
                 leaves = jax.tree.leaves(x)
@@ -361,7 +374,7 @@ def run(phase, cases, ctx):
                                 elif not isinstance(l, jax.ShapeDtypeStruct) and not same(l, np.asarray(o).astype(want)):
                                     bad(case, 'as_promoted_dtype', 'values changed')
                 elif h == 'random_like':
-                    if t in ('complex', 'mixed', 'empty_tuple'):
+                    if t in ('complex', 'mixed', 'mixed_same_shape', 'empty_tuple'):
                         continue
                     key = jax.random.PRNGKey(1)
                     for fn in (lambda q: ft.normal_like(q, key), lambda q: ft.uniform_like(q, key, 2.0, 3.0)):
